@@ -186,27 +186,34 @@ void World::exec(const std::vector<std::string> &t)
         out("val " + std::to_string(need(I(t[1])).hasBinding() ? 1 : 0));
     } else if (o == "passign") {
         need(I(t[1])) = need(I(t[2])).get(); // operator=(T const &) with a reference into the other property
-    } else if (o == "pobs" || o == "pobsset") {
+    } else if (o == "pobs" || o == "pobsset" || o == "pobsreset") {
         P &p = need(I(t[1]));
         int label = I(t[3]);
         const int target = o == "pobsset" ? I(t[5]) : -1;
+        const int rtarget = o == "pobsreset" ? I(t[5]) : -1;
         obsOwner[label] = I(t[1]);
         ConnectionHandle h;
         switch (I(t[2])) {
         case 0:
-            h = p.valueAboutToChange().connect([label, target](const int &oldv, const int &newv) {
+            h = p.valueAboutToChange().connect([label, target, rtarget](const int &oldv, const int &newv) {
                 out("notify " + std::to_string(label) + " about " + std::to_string(oldv) + " " + std::to_string(newv) + " seen " + g_w->seen(label));
                 if (target >= 0)
                     if (P *q = g_w->prop(target))
                         q->set(oldv);
+                if (rtarget >= 0)
+                    if (P *q = g_w->prop(rtarget))
+                        q->reset();
             });
             break;
         case 1:
-            h = p.valueChanged().connect([label, target](const int &v) {
+            h = p.valueChanged().connect([label, target, rtarget](const int &v) {
                 out("notify " + std::to_string(label) + " changed " + std::to_string(v) + " seen " + g_w->seen(label));
                 if (target >= 0)
                     if (P *q = g_w->prop(target))
                         q->set(v);
+                if (rtarget >= 0)
+                    if (P *q = g_w->prop(rtarget))
+                        q->reset();
             });
             break;
         default:
